@@ -31,8 +31,9 @@ Proof. exact definition_history_independent_l. Qed.
 Print Assumptions definition_history_independent.
 
 (** The general statement: for every history of caller operations and definitions, the
-    outcome of definition number [k] is the outcome it has in the history without the
-    other definitions, for any two start values of the global counter. *)
+    outcome of definition number [k] (with the class operations applied to it) is the outcome
+    it has in the history without the other definitions and without the class operations on
+    other classes, for any two start values of the global counter. *)
 Theorem history_independent : forall dflt ops k c1 c2,
   (0 <= c1)%Z -> (0 <= c2)%Z -> k < n_defs ops ->
   nth k (w_defs (run (empty_world c1) ops)) dflt
@@ -67,6 +68,18 @@ Print Assumptions shared_counting_attr_independent.
 Theorem converter_objects_untouched : forall w o, is_def o = true -> w_convs (step w o) = w_convs w.
 Proof. exact converter_objects_untouched_l. Qed.
 Print Assumptions converter_objects_untouched.
+
+(** [attrs.resolve_types(cls)] and the reading API ([fields], [Attribute.evolve], [validate] ...)
+    applied to one class change no other class and none of the caller's objects. *)
+Theorem class_op_local : forall d w c t t', t' <> t ->
+  nth t' (w_defs (step w (OClassOp c t))) d = nth t' (w_defs w) d.
+Proof. exact class_op_local_l. Qed.
+Print Assumptions class_op_local.
+
+Theorem class_op_preserves_caller_objects : forall w c t,
+  same_objs w (step w (OClassOp c t)) /\ w_counter (step w (OClassOp c t)) = w_counter w.
+Proof. exact class_op_objs_l. Qed.
+Print Assumptions class_op_preserves_caller_objects.
 
 (** Classes hold copies (metadata, validator/converter/hook members): whatever happens
     later, the fingerprints of the classes defined so far stay what they were. *)
